@@ -112,9 +112,10 @@ func (server *SugarDB) handleCommand(ctx context.Context, message []byte, conn *
 		ctx = context.WithValue(ctx, "ConnectionName", server.connInfo.embedded.Name)
 		ctx = context.WithValue(ctx, "Protocol", server.connInfo.embedded.Protocol)
 		ctx = context.WithValue(ctx, "Database", server.connInfo.embedded.Database)
-	} else {
+	} else if !replay {
 		// The call is triggered by a TCP connection.
 		// Add TCP connection info to the context of the request.
+		// (A replayed command keeps the context prepared by the restore: it carries the logged database.)
 		ctx = context.WithValue(ctx, "ConnectionName", server.connInfo.tcpClients[conn].Name)
 		ctx = context.WithValue(ctx, "Protocol", server.connInfo.tcpClients[conn].Protocol)
 		ctx = context.WithValue(ctx, "Database", server.connInfo.tcpClients[conn].Database)
@@ -178,9 +179,8 @@ func (server *SugarDB) handleCommand(ctx context.Context, message []byte, conn *
 		}
 
 		if internal.IsWriteCommand(command, subCommand) && !replay {
-			server.connInfo.mut.RLock()
-			server.aofEngine.LogCommand(server.connInfo.tcpClients[conn].Database, message)
-			server.connInfo.mut.RUnlock()
+			// Log the command under the database it was executed in (TCP and embedded callers alike).
+			server.aofEngine.LogCommand(ctx.Value("Database").(int), message)
 		}
 
 		server.stateMutationInProgress.Store(false)
